@@ -458,7 +458,9 @@ pub fn random(o: &Opts) -> R<()> {
     let mut panics = 0usize;
     let mut with_packed = 0usize;
     for i in 0..n {
-        let nv = if i % 11 == 4 { *[12usize, 30, 36, 40].choose(&mut rng).unwrap() } else { rng.gen_range(2..=if i % 5 == 0 { 40 } else { 10 }) };
+        let nv = if (i % 7 == 6 || i % 7 == 0) && i % 3 == 0 {
+            rng.gen_range(16..=24) // room for a long ring of packed encodings
+        } else if i % 11 == 4 { *[12usize, 30, 36, 40].choose(&mut rng).unwrap() } else { rng.gen_range(2..=if i % 5 == 0 { 40 } else { 10 }) };
         let packed = i % 3 == 0;
         if packed {
             with_packed += 1;
@@ -501,12 +503,23 @@ pub fn random(o: &Opts) -> R<()> {
         // cycles through the first spans of several packed encodings (v1 = [v2 ..], v2 = [v1 ..]), with a
         // sized word on some of them: evidence that can alternate between forests from round to round
         if i % 7 == 6 || i % 7 == 0 {
-            let k = rng.gen_range(2..=4.min(nv));
+            // mostly short rings, now and then one that takes many rounds to come back to where it began
+            let long = nv >= 16 && rng.gen_bool(0.5);
+            let k = if long { rng.gen_range(5..=16) } else { rng.gen_range(2..=4.min(nv)) };
             let cyc: Vec<usize> = rand::seq::index::sample(&mut rng, nv, k).into_vec();
-            let w = *[8usize, 160, 256].choose(&mut rng).unwrap();
+            let w = if long { 160 } else { *[8usize, 160, 256].choose(&mut rng).unwrap() };
+            if long {
+                // a pure ring: nothing but the first spans and one sized word, on variables of its own
+                js.clear();
+                js.push((cyc[0], TE::address()));
+            }
             for (n, a) in cyc.iter().enumerate() {
                 let b = cyc[(n + 1) % k];
                 let mut spans = vec![Span::new(tv(b), 0, w)];
+                if long {
+                    js.push((*a, TE::Packed { types: spans, is_struct: false }));
+                    continue;
+                }
                 if w < 256 && rng.gen_bool(0.4) {
                     spans.push(Span::new(tv(rng.gen_range(0..nv)), w, *[8usize, 96].choose(&mut rng).unwrap()));
                 }
@@ -520,6 +533,22 @@ pub fn random(o: &Opts) -> R<()> {
                     js.push((*a, word));
                 }
             }
+        }
+        // fixed arrays whose (equal or different) lengths are beyond 64 and 128 bits, in one class
+        if i % 11 == 9 && nv >= 5 {
+            js.clear();
+            let lens = [U256::from(3u8), U256::ONE << 64, (U256::ONE << 64) + U256::ONE, U256::ONE << 128, U256::MAX];
+            let l1 = *lens.choose(&mut rng).unwrap();
+            let l2 = if rng.gen_bool(0.6) { l1 } else { *lens.choose(&mut rng).unwrap() };
+            js.push((0, TE::FixedArray { element: tv(2), length: l1 }));
+            if rng.gen_bool(0.5) {
+                js.push((0, TE::FixedArray { element: tv(3), length: l2 }));
+            } else {
+                js.push((1, TE::FixedArray { element: tv(3), length: l2 }));
+                js.push((0, TE::eq(tv(1))));
+            }
+            js.push((2, TE::word(None, WordUse::UnsignedNumeric)));
+            js.push((3, TE::address()));
         }
         // two constructors of one kind in one class that share one component variable and differ in the other,
         // with the evidence about the differing component split over the two variables
